@@ -98,10 +98,39 @@ def mutating_methods(repo):
 def _is_memo_getter(f):
     """`def m(self, k): if k not in self.C: [v = g(k);] self.C[k] = v ; return self.C[k]` - a memoised function of k:
     calling it once, twice or at another point gives the same value and nothing else observes the cache"""
+    r0 = _memo_shape(f)
+    if r0 is not None:
+        return r0
+    # the same method in the other tree (reviewed snapshot / analysed tree) written in the recognised shape: callers
+    # see a memoised function on both sides (what the method does inside is compared by RX on the method itself)
+    try:
+        o = other_side(f.module.repo)
+        g = next((x for x in o.all_functions() if x.key == f.key), None) if o is not None else None
+    except Exception:
+        g = None
+    return bool(g is not None and _memo_shape(g))
+
+
+def _memo_shape(f):
+    """True / False when `f` has / has not one of the two memoising shapes; None when it cannot be one at all"""
     body = [x for x in f.node.body if not (isinstance(x, ast.Expr) and isinstance(x.value, ast.Constant))]
-    if len(f.params) != 2 or len(body) != 2 or not isinstance(body[0], ast.If) or not isinstance(body[1], ast.Return) or body[0].orelse:
-        return False
+    if f.cls is None or len(f.params) != 2:
+        return None
     k = f.params[1]
+    # second shape: if k in self.C: return self.C[k] ; v = g(k) ; self.C[k] = v ; return v
+    if len(body) >= 3 and isinstance(body[0], ast.If) and not body[0].orelse and isinstance(body[0].test, ast.Compare) and len(body[0].test.ops) == 1 and isinstance(body[0].test.ops[0], ast.In) and u(body[0].test.left) == k and re.fullmatch(r"self\.\w+", u(body[0].test.comparators[0])):
+        cache = u(body[0].test.comparators[0])
+        hit = body[0].body
+        stores = [x for s_ in body[1:] for x in ast.walk(s_) if isinstance(x, (ast.Attribute, ast.Subscript)) and isinstance(x.ctx, ast.Store)]
+        last = body[-1]
+        if (len(hit) == 1 and isinstance(hit[0], ast.Return) and u(hit[0].value) == f"{cache}[{k}]" and [u(x) for x in stores] == [f"{cache}[{k}]"]
+                and isinstance(last, ast.Return) and not any(isinstance(x, (ast.If, ast.For, ast.While, ast.Try)) for s_ in body[1:] for x in ast.walk(s_))):
+            st_ = next(s_ for s_ in body[1:] if isinstance(s_, ast.Assign) and u(s_.targets[0]) == f"{cache}[{k}]")
+            if u(last.value) in (u(st_.value), f"{cache}[{k}]"):
+                return _cache_private(f, cache)
+        return False
+    if len(body) != 2 or not isinstance(body[0], ast.If) or not isinstance(body[1], ast.Return) or body[0].orelse:
+        return False
     t = body[0].test
     if not (isinstance(t, ast.Compare) and len(t.ops) == 1 and isinstance(t.ops[0], ast.NotIn) and u(t.left) == k and re.fullmatch(r"self\.\w+", u(t.comparators[0]))):
         return False
@@ -111,6 +140,10 @@ def _is_memo_getter(f):
     stores = [x for x in ast.walk(body[0]) if isinstance(x, (ast.Attribute, ast.Subscript)) and isinstance(x.ctx, ast.Store)]
     if [u(x) for x in stores] != [f"{cache}[{k}]"]:
         return False
+    return _cache_private(f, cache)
+
+
+def _cache_private(f, cache):
     # nothing else of the class writes the cache (other than creating it empty)
     for g in f.cls.methods.values():
         if g is f:
@@ -252,11 +285,14 @@ def tables(cur_f, ref_f):
     a, b = table(cur_f, unroll=2, **kw), table(ref_f, unroll=2, **kw)
     if isinstance(a, Exception) or isinstance(b, Exception):
         a, b = table(cur_f, **kw), table(ref_f, **kw)
+    depth = 1
     if isinstance(a, Exception) or isinstance(b, Exception):
         a, b = table(cur_f, unroll=0, **kw), table(ref_f, unroll=0, **kw)
+        depth = 0
     if isinstance(a, Exception) or isinstance(b, Exception):
         kw = dict(events=True)
         a, b = table(cur_f, unroll=0, **kw), table(ref_f, unroll=0, **kw)
+    _table_depth[(cur_f.module.repo.root, cur_f.key)] = depth
     return a, b
 
 
@@ -622,14 +658,53 @@ def refinement_findings(repo, short, qualname):
     if pre:
         return pre
     ct, rt = tables(cur_f, ref_f)
-    if isinstance(ct, Exception) or isinstance(rt, Exception):
-        return []
     global _canon_forms
     _canon_forms = EQUIVALENT_FORMS.get((short, qualname), [])
     try:
-        return compare_tables(ct, rt)
+        out = [] if isinstance(ct, Exception) or isinstance(rt, Exception) else compare_tables(ct, rt)
+        if isinstance(ct, Exception) or isinstance(rt, Exception) or _table_depth.get((cur_f.module.repo.root, cur_f.key), 1) == 0:
+            # the function is too big to be tabulated with its loops entered: its loop bodies are compared one by one
+            out = out + _compare_loop_bodies(cur_f, ref_f)
+        return out
     finally:
         _canon_forms = []
+
+
+_table_depth = {}
+
+
+def _loops(fn):
+    out = []
+
+    def walk(body):
+        for s_ in body:
+            if isinstance(s_, (ast.FunctionDef, ast.AsyncFunctionDef, ast.ClassDef)):
+                continue
+            if isinstance(s_, (ast.For, ast.While)):
+                out.append(s_)
+            for fld in ("body", "orelse", "finalbody"):
+                walk(getattr(s_, fld, []) or [])
+            for h in getattr(s_, "handlers", []) or []:
+                walk(h.body)
+
+    walk(fn.body)
+    return out
+
+
+def _compare_loop_bodies(cur_f, ref_f):
+    cl, rl = _loops(cur_f.node), _loops(ref_f.node)
+    if len(cl) != len(rl):
+        raise AnalysisError(f"{cur_f.key}: the function is too large for a decision table with its loops entered and its loop structure changed ({len(rl)} -> {len(cl)} loops): needs re-review")
+    out = []
+    for a, b in zip(cl, rl):
+        if ast.dump(ast.Module(body=a.body, type_ignores=[])) == ast.dump(ast.Module(body=b.body, type_ignores=[])):
+            continue
+        try:
+            ta, tb = block_table(a.body, unroll=0, fi=cur_f, max_paths=3000), block_table(b.body, unroll=0, fi=ref_f, max_paths=3000)
+        except AnalysisError as e:
+            raise AnalysisError(f"{cur_f.key}: the body of the loop at line {a.lineno} changed and is too large for a decision table ({e}): needs re-review")
+        out += [(k, f"loop@{_norm_atom(u(b.target) if isinstance(b, ast.For) else u(b.test))[:30]}:{t}", n, w) for k, t, n, w in compare_tables(ta, tb)]
+    return out
 
 
 _rewritten = {}
@@ -803,6 +878,45 @@ def compare_tables(ct, rt):
                     break
             if findings:
                 return findings
+    # ---- a new condition under which the same steps are taken with a different VALUE (a fast path / special case that
+    # computes something the reviewed version obtained otherwise): the current path, with the new conditions projected
+    # away, corresponds to one reviewed path; its effects are of the same kinds but an operand differs
+    if new and not gone and not findings:
+        new_set = set(new)
+
+        def proj(p):
+            return tuple(sorted((k, v) for k, v in _norm_atoms(p.atoms).items() if k not in new_set and not k.startswith(("more(", "raises("))))
+
+        def coarse_e(p):
+            # kinds of the steps only: what is stored into `<something>.attr` / which method is called
+            def tail(e):
+                t = str(e[1]) if len(e) > 1 else ""
+                return (e[0], re.sub(r"@\d+|#\d+", "", t).rsplit(".", 1)[-1] if e[0] in ("store", "call", "aug", "del") else "")
+            return (tuple(tail(e) for e in _relevant(p.effects)), p.result[0])
+
+        def fine_e(p):
+            return (tuple(tuple(_fine(x) for x in _bound_call(e)) for e in _relevant(p.effects)), (p.result[0] if p.result[0] != "fall" else "return", _fine(p.result[1]) if p.result[0] != "raise" else str(p.result[1]).split("(")[0]))
+
+        by_proj = {}
+        for pr in rt:
+            by_proj.setdefault(proj(pr), []).append(pr)
+        for pc in ct:
+            na = [(k, v) for k, v in _norm_atoms(pc.atoms).items() if k in new_set]
+            if not na:
+                continue
+            pj = set(proj(pc))
+            cands = [pr for k_, prs in by_proj.items() if pj <= set(k_) for pr in prs if coarse_e(pr) == coarse_e(pc)]
+            if not cands or not _relevant(pc.effects):
+                continue
+            fc = fine_e(pc)
+            if all(fine_e(pr) != fc for pr in cands):
+                fr = fine_e(cands[0])
+                d0 = _first_diff(fr, fc)
+                findings.append(("value-under-new-condition", f"{na[0][0][:60]}:{d0[1][:40]}", None,
+                                 f"when the new condition `{na[0][0][:100]}` is {na[0][1]} the function takes the reviewed steps with a different value: reviewed `{d0[0][:140]}`, now `{d0[1][:140]}` (a special case / fast path that does not compute what the general path computes)"))
+                break
+        if findings:
+            return findings
     # case-by-case refinement
     cur_norm = [(_norm_atoms(p.atoms), p) for p in ct]
     cur_builds_locally = any(k[0] == "call" and str(k[1]).startswith("<local>.") for p in ct for k in (_eff_key(e) for e in _relevant(p.effects)))
